@@ -243,9 +243,14 @@ class CenteredDifferences(BaseGradientApproximator):
             step,
         )
         input_perturbations[input_indices, range(n_indices)] += steps_plus
+        # Do not cancel both steps (e.g. when the bounds are equal),
+        # otherwise the finite difference would be 0/0.
         steps_minus = where(
-            input_perturbations[input_indices, range(n_indices, 2 * n_indices)]
-            <= lower_bounds[list(input_indices)],
+            (
+                input_perturbations[input_indices, range(n_indices, 2 * n_indices)]
+                <= lower_bounds[list(input_indices)]
+            )
+            & (steps_plus != 0),
             0,
             -step,
         )
